@@ -106,10 +106,14 @@ Full statement / proved / missing
                          `Optional` removed, Array / Hash / Struct element-wise, else `new(T', v)`): the result is an instance
                          of the REQUESTED type T; instances are returned unchanged; `Optional[T]` picks T's constructor;
                          `NotUndef`, `Variant`, aliases and a second `Optional` are not looked into.
-* missing / trusted    — the other constructors' bodies (String formatting, Hash from tree arrays, Timespan, SemVer, …) are not
-                         modelled: `C16_new` quantifies over an arbitrary constructor function, and the general `new` op of
-                         the correspondence run is implementation-only (a test with the direct predicate, not a proof);
-                         `strconv.ParseInt` is modelled, not verified.  Receiver resolution from a *string* (`px.Load`), the
+* missing / trusted    — the other constructors' bodies (String with a format or a container — C20's subject —, Timespan with
+                         user-supplied formats, Timestamp, SemVer, SemVerRange, Regexp, URI, Type, Sensitive, object types) and
+                         the Object arm of `CoerceTo` are not modelled: `C16_new` quantifies over an arbitrary constructor
+                         function, and the general `new` op of the correspondence run is implementation-only (a test with the
+                         direct predicate, not a proof); tree-array keys that contain a hash are refused by the model.
+                         `strconv.ParseInt`, `strconv.ParseFloat` on decimal text (an arbitrary function in the theorems),
+                         `float64`↔`int64` conversion (amd64 for out-of-range values), `encoding/base64` and the regular
+                         expressions of the default Timespan formats are modelled, not verified.  Receiver resolution from a *string* (`px.Load`), the
                          mismatch describer that builds the error text, and `block.PType() == nil` are outside the model.
                          Block types are modelled for the shapes `Callable` and `Callable[min,max]` in the driver; the theorems
                          hold for any `binst`.
@@ -811,6 +815,7 @@ example : outText (newModel pfx (.plain (.int none none)) [.hash [(.str "from", 
 example : outText (newModel pfx (.plain (.int none none)) [.float 0xC004000000000000]) = "value (i -2)" := by decide +kernel
 example : outText (newModel pfx (.plain (.int none none)) [.float 0x7FF0000000000000]) = "value (i -9223372036854775808)" := by
   decide +kernel
+example : ∀ es, Val.str "1.5" ≠ .hash es := by intro es h; cases h   -- hypothesis of C16_*_named_positional, second part
 example : resText (numberBody pfx (.float 0xC004000000000000) (some (.bool true)) false) = "value (f 4612811918334230528)" := by
   decide +kernel
 
